@@ -28,16 +28,16 @@ var t0 = time.Date(2024, 1, 1, 0, 0, 0, 0, time.UTC)
 
 // object is one letter of the alphabet.
 type object struct {
-	Name     string
-	Kind     string // SE K8S VS GW DR SC EF
-	Shape    string // Kind for objects admission accepts, Kind!defect for objects it rejects
-	Core     bool   // member of the core used for triples
-	Rejected bool   // measured: istio's own validation rejects at least one of the configs
+	Name      string
+	Kind      string // SE K8S VS GW DR SC EF
+	Shape     string // Kind for objects admission accepts, Kind!defect for objects it rejects
+	Core      bool   // member of the core used for triples
+	Rejected  bool   // measured: istio's own validation rejects at least one of the configs
 	RejectWhy string
-	Configs  []config.Config
-	Services func() ([]*model.Service, []*model.ServiceInstance)
-	yaml     string
-	defect   string
+	Configs   []config.Config
+	Services  func() ([]*model.Service, []*model.ServiceInstance)
+	yaml      string
+	defect    string
 }
 
 // parse decodes YAML documents the way the CRD client does (no validation).
@@ -790,6 +790,27 @@ spec:
     patch:
       operation: INSERT_FIRST
       value: {name: ef-first, match: {prefix: /ef}, direct_response: {status: 204}}
+`},
+	{name: "ef-add-http-listener-with-own-rds-name", kind: "EF", yaml: hdrEF + `
+metadata: {name: ef-rds, namespace: istio-system}
+spec:
+  configPatches:
+  - applyTo: LISTENER
+    patch:
+      operation: ADD
+      value:
+        name: ef-http-listener
+        address: {socket_address: {address: 127.0.0.1, port_value: 18080}}
+        filter_chains:
+        - filters:
+          - name: envoy.filters.network.http_connection_manager
+            typed_config:
+              "@type": type.googleapis.com/envoy.extensions.filters.network.http_connection_manager.v3.HttpConnectionManager
+              stat_prefix: ef
+              rds: {route_config_name: ef-custom-route, config_source: {ads: {}, resource_api_version: V3}}
+              http_filters:
+              - name: envoy.filters.http.router
+                typed_config: {"@type": type.googleapis.com/envoy.extensions.filters.http.router.v3.Router}
 `},
 	// ---------- objects admission validation rejects ----------
 	{name: "se-port-zero", kind: "SE", core: true, defect: "port0", yaml: hdrSE + `
